@@ -649,6 +649,8 @@ pub fn run(run: &Run) {
     println!("  [phase] doscmint corner done at {:.1}s", run.elapsed());
     large_batch_family(run, thorough);
     println!("  [phase] large batches done at {:.1}s", run.elapsed());
+    // the one lock-protected structure that validation threads share (the DOSC inflator table): every interleaving, by loom
+    crate::loomrun::inflator_interleavings(run, "C03");
     repeatability_sampling(run, thorough);
     println!("  [phase] schedule sampling done at {:.1}s", run.elapsed());
     run.set("sets_checked", json!(total_sets));
@@ -657,5 +659,5 @@ pub fn run(run: &Run) {
     run.set("schedule_control", json!("closure-level schedules are not enumerated (rayon is not interceptable by loom/shuttle); pool sizes 1..16 and all batch orders are; see DESIGN.md §5"));
     run.sample(json!({"set": ["xfer(coin)", "chain(xfer)", "chain2(xfer)"], "orders": "all 6 as one batch; the topological order one at a time; pools of 1 and 16 threads; 3 rebuilt HashSets through apply_block"}));
     run.assume("which error a rejected batch returns is schedule-dependent by design and is not compared");
-    run.assume("thread interleavings inside validation closures are outside the technique here: closures only read shared immutable data");
+    run.assume("thread interleavings inside validation closures other than those of the inflator table (explored with loom) are outside the technique here: closures only read shared immutable data");
 }
